@@ -5,23 +5,13 @@ import GSProofs.Lemmas.MsgQueueLedger4
 namespace GS.MQ
 open GS.Alloc
 
-theorem buildMessage_pc (pick : Pick) (s : State) (ticket : Nat) (tx : Tx) (size : Nat) :
-    (s.buildMessage pick ticket tx size).pc = s.pc := by
-  unfold State.buildMessage
-  simp only
-  split
-  · split <;> rfl
-  · split
-    · split <;> split <;> rfl
-    · split <;> split <;> rfl
-
 theorem buildWith_pc (pick : Pick) (s : State) (tx : Tx) (size : Nat) : (buildWith pick s tx size).pc = s.pc := by
   unfold buildWith
   simp only
   split
-  · exact buildMessage_pc _ _ _ _ _
+  · exact buildMsg_pc _ _ _ _ _
   · split
-    · rw [buildMessage_pc]; rfl
+    · rw [buildMsg_pc]; rfl
     · rfl
 
 theorem build_pc (pick : Pick) (s : State) (tx : Tx) : (s.build pick tx).pc = s.pc := by
@@ -34,7 +24,7 @@ theorem wake_pc (pick : Pick) (s : State) (t : Nat) : (s.wake pick t).pc = s.pc 
   split
   · rfl
   · simp only; split
-    · rw [buildMessage_pc]
+    · rw [buildMsg_pc]
     · rfl
 
 theorem run_exited (pick : Pick) (s : State) (pw : Bool) (h : s.pc = .exited) : s.run pick pw = s := by
@@ -43,8 +33,8 @@ theorem run_exited (pick : Pick) (s : State) (pw : Bool) (h : s.pc = .exited) : 
 theorem ack_exited (pick : Pick) (s : State) (ok : Bool) (h : s.pc = .exited) : s.ack pick ok = s := by
   unfold State.ack; rw [h]
 
-/-- the inductive invariant: the ledger holds until the queue goroutine has exited -/
-def I (s : State) : Prop := s.pc = .exited ∨ LInv s
+/-- the inductive invariant: the ledger, and a closed queue has no queued builder -/
+def I (s : State) : Prop := LInv s ∧ CN s
 
 /-- the act is not an allocator call on this queue's own peer by somebody else (no second queue of
     the same peer is alive) -/
@@ -57,48 +47,49 @@ def soloFrom (pick : Pick) : State → List Act → Bool
   | _, [] => true
   | s, a :: r => soloAct s.peer a && soloFrom pick (step pick s a) r
 
-theorem step_I {pick : Pick} (hp : Admissible pick) {s : State} (h : I s) (a : Act) (hs : soloAct s.peer a = true) :
-    I (step pick s a) := by
+/-- the act is not the queue goroutine's deferred `ReleasePeerMemory` while a caller whose reservation
+    has been granted has not yet reached `buildMessage` (that caller's bytes would be wiped, and its
+    later release would hit whatever the peer holds then: finding `dead-queue-over-release`) -/
+def cleanAct (s : State) : Act → Bool
+  | .ack _ => !(s.pc == .exiting) || heldGranted s == 0
+  | _ => true
+
+def cleanFrom (pick : Pick) : State → List Act → Bool
+  | _, [] => true
+  | s, a :: r => cleanAct s a && cleanFrom pick (step pick s a) r
+
+theorem step_I {pick : Pick} (hp : Admissible pick) {s : State} (h : I s) (a : Act) (hs : soloAct s.peer a = true)
+    (hc : cleanAct s a = true) : I (step pick s a) := by
+  refine ⟨?_, step_cn pick h.2 a⟩
+  obtain ⟨h, hcn⟩ := h
   cases a with
-  | build tx =>
-    rcases h with h | h
-    · left; show (s.build pick tx).pc = _; rw [build_pc]; exact h
-    · right; exact (build_linv hp h tx).1
-  | wake t =>
-    rcases h with h | h
-    · left; show (s.wake pick t).pc = _; rw [wake_pc]; exact h
-    · right; exact (wake_linv hp h t).1
-  | run pw =>
-    rcases h with h | h
-    · left; show (s.run pick pw).pc = _; rw [run_exited _ _ _ h]; exact h
-    · right; exact run_linv hp h pw
+  | build tx => exact (build_linv hp h tx).1
+  | wake t => exact (wake_linv hp h t).1
+  | run pw => exact run_linv hp h pw
   | ack ok =>
-    rcases h with h | h
-    · left; show (s.ack pick ok).pc = _; rw [ack_exited _ _ _ h]; exact h
-    · rcases ack_linv hp h ok with h' | h'
-      · exact Or.inr h'
-      · exact Or.inl h'
+    apply ack_linv hp h hcn
+    intro hpc
+    simp only [cleanAct, hpc, beq_self_eq_true, Bool.not_true, Bool.false_or, beq_iff_eq] at hc
+    exact hc
   | shutdown =>
-    rcases h with h | h
-    · exact Or.inl h
-    · right
-      exact ⟨⟨⟨h.led.1.ainv, h.led.1.pend, h.led.1.nodupW, h.led.1.fresh, h.led.1.nofail, h.led.1.wsize⟩, h.led.2⟩, h.binv⟩
+    exact ⟨⟨⟨h.led.1.ainv, h.led.1.pend, h.led.1.nodupW, h.led.1.fresh, h.led.1.wsize⟩, h.led.2⟩, h.binv⟩
   | env op =>
     have hq' : opPeer op ≠ s.peer := by simpa [soloAct] using hs
-    rcases h with h | h
-    · exact Or.inl h
-    · exact Or.inr (env_linv hp h op hq').1
+    exact (env_linv hp h op hq').1
 
 theorem init_LInv {peer mr mt mp : Nat} (ht : mt < W) (hm : mp < W) : LInv (init peer mr mt mp) := by
-  refine ⟨⟨⟨Alloc.Inv.init ht hm, rfl, by simp [init], by simp [init], by simp [init], by simp [init]⟩, rfl⟩, by simp [init]⟩
+  refine ⟨⟨⟨Alloc.Inv.init ht hm, rfl, by simp [init], by simp [init], by simp [init]⟩, rfl⟩, by simp [init]⟩
+
+theorem init_I {peer mr mt mp : Nat} (ht : mt < W) (hm : mp < W) : I (init peer mr mt mp) :=
+  ⟨init_LInv ht hm, fun _ => rfl⟩
 
 theorem runActs_I {pick : Pick} (hp : Admissible pick) {s : State} (h : I s) (acts : List Act)
-    (hs : soloFrom pick s acts = true) : I (runActs pick s acts) := by
+    (hs : soloFrom pick s acts = true) (hc : cleanFrom pick s acts = true) : I (runActs pick s acts) := by
   unfold runActs
   induction acts generalizing s with
   | nil => exact h
   | cons a r ih =>
-    simp only [soloFrom, Bool.and_eq_true] at hs
-    exact ih (step_I hp h a hs.1) hs.2
+    simp only [soloFrom, cleanFrom, Bool.and_eq_true] at hs hc
+    exact ih (step_I hp h a hs.1 hc.1) hs.2 hc.2
 
 end GS.MQ
